@@ -381,8 +381,13 @@ def check_writers(ctx):
         return found
     for name in ("text", "csv"):
         cases[name] = axis_cases(base.methods[name])
+    want = {"verif.axis.Threshold()", "verif.axis.Obs()", "verif.axis.Fcst()"}
+    missing = {n_: sorted(want - cases[n_]) for n_ in ("text", "csv")}
     ctx.ob("C19.6", "verif.output.Output", cases["text"] == cases["csv"] and len(cases["text"]) >= 3, "text() and csv() handle the same axis cases %s" % sorted(cases["text"]),
-           msg="text() handles %s but csv() handles %s: one of the two output types crashes for the missing axis" % (sorted(cases["text"]), sorted(cases["csv"])))
+           msg=("text() handles %s but csv() handles %s: one of the two output types crashes for the missing axis" % (sorted(cases["text"]), sorted(cases["csv"])))
+           if cases["text"] != cases["csv"] else
+           ("text() and csv() no longer build the row descriptors of %s themselves (one row per -r threshold): those axes fall through to "
+            "get_axis_descriptions, whose single entry is indexed past its end" % (missing["text"] or "the threshold-like axes")))
     for name in ("text", "csv"):
         src = norm(base.methods[name])
         ctx.ob("C19.6", "verif.output.Output." + name, "is None" in src and "'All'" in src, "%s() prints 'All' for a descriptor without values" % name,
